@@ -76,7 +76,10 @@ int main(int argc, char **argv) {
             if (!strcmp(mode, "ok-huge")) { fputs("99999999999999999999999999\n", stdout); return 0; }
             if (!strcmp(mode, "ok-negative")) { fputs("-1\n", stdout); return 0; }
             if (!strcmp(mode, "killed")) { raise(SIGKILL); return 137; }
-            fprintf(stderr, "gitshim: unknown mode %s\n", mode); return 99;
+            /* a realistic git diagnostic (text in ZERV_VERIF_GIT_MSG): "msg" fails with it, "warn" prints it and then lets the real git answer */
+            if (!strcmp(mode, "msg")) { const char *m = getenv("ZERV_VERIF_GIT_MSG"); fputs(m ? m : "fatal: injected\n", stderr); return 128; }
+            if (!strcmp(mode, "warn")) { const char *m = getenv("ZERV_VERIF_GIT_MSG"); fputs(m ? m : "warning: injected\n", stderr); fflush(stderr); }
+            else { fprintf(stderr, "gitshim: unknown mode %s\n", mode); return 99; }
         }
     }
     {
